@@ -125,7 +125,8 @@ let run_c15 fs =
      let huge = match total with
        | Some t -> (match N.div_eucl t o.o_block_size with (q, _) -> N.leb (n_of_int 3000000) q) && o.o_seektable_interval <> None
        | None -> false in
-     if huge && script = [] && not fin then begin
+     let bigpad = List.exists (function BPadding s -> N.leb (n_of_int 200000) s | _ -> false) o.o_metadata in
+     if (huge || bigpad) && script = [] && not fin then begin
        (* class of the constructor = class of its argument checks (Params_proofs.new_ok_iff) *)
        add ("new:" ^ cls (new_validate (wkind_of kind) rate bps ch total));
        (match new_validate (wkind_of kind) rate bps ch total with Ok _ -> add "w:-" | _ -> ())
